@@ -319,6 +319,11 @@ def replay(path):
     if not case:
         print("replay file names no concrete input: %s" % json.dumps(rec.get("broken_obligations"))[:800])
         return 1
+    if case.startswith("PROG ") and "helper " in case:
+        out = vlib.run_lines(c12stanza.build_impl_driver(), [case[5:]])[0]
+        bad = out.startswith("CRASH") or "ALLOCERR" in out or not out.endswith("END live=0 blocks=0")
+        print("program : %s\nimpl    : %s\nproperty: %s" % (case[5:], out, "FAILS (foreign / double free or leak)" if bad else "holds"))
+        return 1 if bad else 0
     if case.startswith("PROG "):
         return c12stanza.replay_stanza(case[5:])
     if case.startswith("SIM "):
